@@ -41,6 +41,16 @@ class PriorEdge(BaseEdge):
         return [np.dot(p.jacobian_self_ominus_other_wrt_self_compact(self.estimate), p.jacobian_boxplus())]
 
 
+class LikelihoodPriorEdge(PriorEdge):
+    """A prior whose chi^2 is a negative log-likelihood: the quadratic form plus a constant normalisation term.
+    (Overriding calc_chi2 is what a user does for that; the graph's chi^2 is the sum of the edges' calc_chi2().)"""
+
+    KIND = "likelihood_prior"
+
+    def calc_chi2(self):
+        return BaseEdge.calc_chi2(self) + 0.75
+
+
 class NumericPriorEdge(PriorEdge):
     KIND = "numeric_prior"
 
@@ -160,6 +170,19 @@ class PriorTagP(PointPriorXY):
             numbers = line[len("PRIOR_XY "):].split()  # fmt: skip
             arr = np.array([float(number) for number in numbers[1:]], dtype=np.float64)
             return cls([int(numbers[0])], upper_triangular_matrix_to_full_matrix(arr[2:], 2), arr[:2])
+        return None
+
+
+class RobustOdometrySE2(EdgeOdometry):
+    """A user's subclass that takes over the built-in EDGE_SE2 lines (registered custom types are asked first)."""
+
+    KIND = "robust_odometry_se2"
+
+    @classmethod
+    def from_g2o(cls, line, g2o_params_or_none=None):
+        if line.startswith("EDGE_SE2 "):
+            base = EdgeOdometry.from_g2o(line, g2o_params_or_none)
+            return cls(base.vertex_ids, base.information, base.estimate)
         return None
 
 
